@@ -24,10 +24,12 @@ EXTENDS Integers, Sequences, FiniteSets, TLC, Json
 
 Kinds == {"struct", "funcR", "funcA", "builderR", "builderA", "batch"}
 
-\* [kind, hp, he, hpo, hfb, fails]: which of prep / exec / post / fallback the node provides; does the exec attempt fail
-Cells == {c \in [kind : Kinds, hp : BOOLEAN, he : BOOLEAN, hpo : BOOLEAN, hfb : BOOLEAN, fails : BOOLEAN] :
+\* [kind, hp, he, hpo, hfb, fails, pres]: which of prep / exec / post / fallback the node provides; does the exec attempt
+\* fail; pres: the value prep returns is itself a flyt.Result (a value like any other)
+Cells == {c \in [kind : Kinds, hp : BOOLEAN, he : BOOLEAN, hpo : BOOLEAN, hfb : BOOLEAN, fails : BOOLEAN, pres : BOOLEAN] :
             /\ (c.fails => c.he)                    \* only a provided exec can fail
-            /\ (c.kind = "batch" => ~c.hfb)}        \* the batch builder has no fallback function
+            /\ (c.kind = "batch" => ~c.hfb /\ ~c.pres)  \* the batch builder has no fallback function
+            /\ (c.pres => c.hp)}
 
 \* value tokens: "P" what prep returns, "X" what exec returns, "F" what the fallback returns, "nil"
 Expected(c) ==
@@ -48,8 +50,10 @@ Expected(c) ==
      exec   |-> IF c.he THEN 1 ELSE 0,
      fb     |-> IF c.he /\ c.fails /\ c.hfb THEN 1 ELSE 0,
      post   |-> IF c.hpo /\ phaseok THEN 1 ELSE 0,
-     execarg  |-> IF ~c.he THEN "none" ELSE IF c.hp THEN "P" ELSE "nil",
-     postprep |-> IF ~(c.hpo /\ phaseok) THEN "none" ELSE IF c.hp THEN "P" ELSE "nil",
+     \* a prep value that is itself a Result travels on as that Result; the function-style Exec, which hands a prep value
+     \* that already is a Result to the exec function as its argument (flyt.go:1133), thereby shows it the inner value
+     execarg  |-> IF ~c.he THEN "none" ELSE IF ~c.hp THEN "nil" ELSE IF c.pres /\ c.kind = "struct" THEN "res(P)" ELSE "P",
+     postprep |-> IF ~(c.hpo /\ phaseok) THEN "none" ELSE IF ~c.hp THEN "nil" ELSE IF c.pres THEN "res(P)" ELSE "P",
      postexec |-> IF ~(c.hpo /\ phaseok) THEN "none"
                   ELSE IF ~c.he THEN "nil" ELSE IF ~c.fails THEN "X" ELSE "F",
      iserr  |-> ~phaseok,
@@ -75,7 +79,7 @@ TableConsistent ==
 (* verdict on the facts logged for one cell:                                *)
 (*   e = [ev |-> "defaults", kind, hp, he, hpo, hfb, fails, prep, exec, fb, post, execarg, postprep, postexec,   *)
 (*        iserr, errmatch, action, route, panicked]                                                              *)
-CellOf(e) == [kind |-> e.kind, hp |-> e.hp, he |-> e.he, hpo |-> e.hpo, hfb |-> e.hfb, fails |-> e.fails]
+CellOf(e) == [kind |-> e.kind, hp |-> e.hp, he |-> e.he, hpo |-> e.hpo, hfb |-> e.hfb, fails |-> e.fails, pres |-> e.pres]
 Defaults_Failing(h) ==
   UNION {LET e == h[i] x == Expected(CellOf(h[i])) IN
            (IF e.panicked THEN {"partialNodeRuns"} ELSE {})
